@@ -172,6 +172,10 @@ class Slice:
 
     @property
     def maxlen(self):
+        # bound used for expansions over positions: the concrete length when there is one
+        c = conc(self.len)
+        if c is not None:
+            return c
         return self.buf.maxlen
 
     def concrete(self):
